@@ -45,10 +45,15 @@ def mk_tree(base):
     with open(os.path.join(base, 'root1_secret.txt'), 'wb') as f:
         f.write(SECRET_BESIDE)
     os.makedirs(os.path.join(base, 'root1', 'emptydir'), exist_ok=True)
-    old = time.time() - 86400 * 3
-    for dp, dn, fn in os.walk(base):
-        for n in fn:
-            os.utime(os.path.join(dp, n), (old, old))
+    # modification times in the past with every kind of sub-second fraction (conditional requests round them)
+    old = int(time.time()) - 86400 * 3
+    fracs = [0.0, 0.25, 0.5, 0.7, 0.999, 0.499]
+    i = 0
+    for dp, dn, fn in sorted(os.walk(base)):
+        for n in sorted(fn):
+            t = old + 100 * i + fracs[i % len(fracs)]
+            os.utime(os.path.join(dp, n), (t, t))
+            i += 1
     return os.path.join(base, 'root1'), os.path.join(base, 'root2')
 
 
